@@ -24,8 +24,89 @@ import (
 	"go.opentelemetry.io/collector/component"
 	"go.opentelemetry.io/collector/component/componentstatus"
 	"go.opentelemetry.io/collector/component/componenttest"
+	"go.opentelemetry.io/collector/extension"
+	"go.opentelemetry.io/collector/service/extensions"
+	"go.opentelemetry.io/collector/service/internal/builders"
 	"go.opentelemetry.io/collector/service/internal/status"
 )
+
+// errors a component's Start / Shutdown may return: plain, cancellation, WRAPPED cancellation, deadline
+func vC11Err(kind int, what string) error {
+	switch kind % 4 {
+	case 1:
+		return context.Canceled
+	case 2:
+		return fmt.Errorf("%s: %w", what, context.Canceled)
+	case 3:
+		return context.DeadlineExceeded
+	}
+	return errors.New(what + " failed")
+}
+
+// the documented diagram applied to a lifecycle script (hand-written, independent of the table and of the Coq model)
+func vC11SimLifecycle(script [][2]int, nn int) [][2]int {
+	cur := make([]int, nn)
+	var ev [][2]int
+	rep := func(i, s int) {
+		if vC11Diagram(cur[i], s) {
+			cur[i] = s
+			ev = append(ev, [2]int{i, s})
+		}
+	}
+	for _, op := range script {
+		i := op[0]
+		switch op[1] {
+		case 100:
+			rep(i, 1)
+		case 101:
+			if cur[i] == 1 {
+				rep(i, 2)
+			}
+		case 102, 105:
+			rep(i, 4)
+		case 103:
+			rep(i, 6)
+		case 104:
+			rep(i, 7)
+		default:
+			rep(i, op[1])
+		}
+	}
+	return ev
+}
+
+// a status-watcher extension behind the REAL service path: reporter callback -> graph.Host.NotifyComponentStatusChange ->
+// extensions.Extensions.NotifyComponentStatusChange -> ComponentStatusChanged (+ the async error channel for FatalError)
+type vC11WatchExt struct {
+	log *[][2]int
+	idx map[*componentstatus.InstanceID]int
+}
+
+func (w *vC11WatchExt) Start(context.Context, component.Host) error { return nil }
+func (w *vC11WatchExt) Shutdown(context.Context) error              { return nil }
+func (w *vC11WatchExt) ComponentStatusChanged(src *componentstatus.InstanceID, ev *componentstatus.Event) {
+	*w.log = append(*w.log, [2]int{w.idx[src], int(ev.Status())})
+}
+
+func vC11WatcherExtensions(t *testing.T, w *vC11WatchExt) *extensions.Extensions {
+	typ := component.MustNewType("vwatch")
+	wid := component.NewID(typ)
+	f := extension.NewFactory(typ, func() component.Config { return &struct{}{} },
+		func(context.Context, extension.Settings, component.Config) (extension.Extension, error) {
+			return w, nil
+		},
+		component.StabilityLevelDevelopment)
+	exts, err := extensions.New(context.Background(), extensions.Settings{
+		Telemetry: componenttest.NewNopTelemetrySettings(),
+		BuildInfo: component.NewDefaultBuildInfo(),
+		Extensions: builders.NewExtension(map[component.ID]component.Config{wid: &struct{}{}},
+			map[component.Type]extension.Factory{typ: f}),
+	}, extensions.Config{wid})
+	if err != nil {
+		t.Fatal(err)
+	}
+	return exts
+}
 
 func vC11Diagram(a, b int) bool {
 	switch a {
@@ -61,6 +142,7 @@ type vC11Node struct {
 	run               *vC11Run
 	startRep, stopRep []int
 	startErr, stopErr bool
+	errKind           int
 	host              component.Host
 }
 
@@ -89,7 +171,7 @@ func (n *vC11Node) Start(_ context.Context, h component.Host) error {
 	}
 	if n.startErr {
 		n.run.script = append(n.run.script, [2]int{n.i, 102})
-		return errors.New("start failed")
+		return vC11Err(n.errKind, "start")
 	}
 	n.run.script = append(n.run.script, [2]int{n.i, 101})
 	n.run.atReturn[n.i] = n.run.cur[n.i]
@@ -104,7 +186,7 @@ func (n *vC11Node) Shutdown(context.Context) error {
 	}
 	if n.stopErr {
 		n.run.script = append(n.run.script, [2]int{n.i, 105})
-		return errors.New("stop failed")
+		return vC11Err(n.errKind/4, "stop")
 	}
 	n.run.script = append(n.run.script, [2]int{n.i, 104})
 	return nil
@@ -145,7 +227,7 @@ func TestVerifC11Graph(t *testing.T) {
 		nodes := make([]*vC11Node, nn)
 		for i := 0; i < nn; i++ {
 			nodes[i] = &vC11Node{i: i, run: run, startRep: vC11Reports(rng, 3), stopRep: vC11Reports(rng, 2),
-				startErr: rng.Intn(100) < 12, stopErr: rng.Intn(100) < 20}
+				startErr: rng.Intn(100) < 12, stopErr: rng.Intn(100) < 20, errKind: rng.Intn(16)}
 			id := componentstatus.NewInstanceID(component.MustNewIDWithName("x", fmt.Sprint(i)), component.KindProcessor)
 			pg.instanceIDs[nodes[i].ID()] = id
 			idx[id] = i
@@ -157,12 +239,18 @@ func TestVerifC11Graph(t *testing.T) {
 				pg.componentGraph.SetEdge(simple.Edge{F: nodes[i], T: nodes[i+2]})
 			}
 		}
+		// the service wiring: accepted events go through graph.Host.NotifyComponentStatusChange to a watcher extension
+		var watched [][2]int
+		host := &Host{AsyncErrorChannel: make(chan error, 256)}
+		host.ServiceExtensions = vC11WatcherExtensions(t, &vC11WatchExt{log: &watched, idx: idx})
 		rep := status.NewReporter(func(id *componentstatus.InstanceID, ev *componentstatus.Event) {
 			i := idx[id]
 			run.got = append(run.got, [2]int{i, int(ev.Status())})
 			run.cur[i] = int(ev.Status())
+			host.NotifyComponentStatusChange(id, ev)
 		}, func(error) {})
-		startErr := pg.StartAll(context.Background(), &Host{Reporter: rep})
+		host.Reporter = rep
+		startErr := pg.StartAll(context.Background(), host)
 		lenAfterStart := len(run.got)
 		// run-time reports from started components
 		if startErr == nil {
@@ -191,6 +279,28 @@ func TestVerifC11Graph(t *testing.T) {
 			}
 			st[e[0]] = e[1]
 		}
+		// (c1) a legal report IS delivered, an illegal one is not: the documented diagram applied to the script
+		if want := vC11SimLifecycle(run.script, nn); fmt.Sprint(want) != fmt.Sprint(run.got) {
+			out.Oracle("lifecycle-events-differ-from-diagram-simulation", term,
+				fmt.Sprintf("delivered %v, the documented diagram applied to the script gives %v", run.got, want))
+		}
+		// (c2) the watcher extension behind Host.NotifyComponentStatusChange saw exactly the accepted events, and every
+		// FatalError (and nothing else) went to the async error channel
+		if fmt.Sprint(watched) != fmt.Sprint(run.got) {
+			out.Oracle("host-watcher-misses-status-event", term,
+				fmt.Sprintf("watcher behind graph.Host.NotifyComponentStatusChange was delivered %v, the reporter accepted %v", watched, run.got))
+		}
+		fatals := 0
+		for _, e := range run.got {
+			if e[1] == 5 {
+				fatals++
+			}
+		}
+		if len(host.AsyncErrorChannel) != fatals {
+			out.Oracle("fatal-error-not-forwarded-once", term,
+				fmt.Sprintf("%d FatalError events accepted, %d errors on the async error channel", fatals, len(host.AsyncErrorChannel)))
+		}
+		out.Stat("fatal_events", fatals)
 		// (a') attribution
 		if run.misattributed != "" {
 			out.Oracle("status-attributed-to-wrong-instance", term, run.misattributed)
